@@ -162,3 +162,7 @@ class Commands:
             return cmd_type.parse(buf, params)
         except NotParseable as exc:
             return InvalidCommand(params, exc, command, cmd_type), buf[0:0]
+        except RecursionError:
+            # arguments nested too deeply, e.g. thousands of parentheses
+            exc = NotParseable(buf)
+            return InvalidCommand(params, exc, command, cmd_type), buf[0:0]
